@@ -633,31 +633,56 @@ def check_eshift(prog, rep):
     f = inline_temps(m.func('KrylovBased.__init__'))
     rep.instance('KRYLOV-eshift', {'function': 'KrylovBased.__init__'})
     inside = outside = False
+    # units: __init__ itself, and private helpers of the class it hands (self.H, self.E_shift) to
+    # [(function, guards holding at the call, parameter -> argument text, result stored in self.H)]
+    units = [(f, set(), {}, False)]
     for c in body_nodes(f):
-        e = pmatch('ShiftNpcLinearOperator($$op, $$sh)', c)
-        if not e or unparse(e['$$sh']) not in ('self.E_shift', 'E_shift'):
-            continue
-        st = c
-        while not isinstance(st, ast.stmt):
-            st = parent(st)
-        g = {(t, pol) for t, pol, _ in guards_at(f, c)}
-        shifted = any(t.endswith('E_shift is None') and not pol for t, pol in g)
-        is_orth = {pol for t, pol in g if t.startswith('isinstance(') and
-                   'OrthogonalNpcLinearOperator' in t}
-        op = unparse(e['$$op'])
-        if op.endswith('.orig_operator') and shifted and is_orth == {True}:
-            # the shifted inner operator must end up INSIDE an orthogonal projection
-            tgt = unparse(st.targets[0]) if isinstance(st, ast.Assign) else ''
-            wrapped = any(isinstance(x, ast.Call) and call_name(x) == 'OrthogonalNpcLinearOperator'
-                          and c in ast.walk(x) for x in ast.walk(st))
-            named = isinstance(st, ast.Assign) and isinstance(st.targets[0], ast.Name) and any(
-                isinstance(x, ast.Call) and call_name(x) == 'OrthogonalNpcLinearOperator' and
-                x.args and unparse(x.args[0]) == st.targets[0].id for x in body_nodes(f))
-            if tgt.endswith('.orig_operator') or wrapped or named:
-                inside = True
-        elif op in ('self.H', 'H') and shifted and is_orth == {False} and \
-                isinstance(st, ast.Assign) and unparse(st.targets[0]) == 'self.H':
-            outside = True
+        if isinstance(c, ast.Call) and isinstance(c.func, ast.Attribute) and unparse(
+                c.func.value) in ('self', 'KrylovBased') and m.has_func(
+                    'KrylovBased.' + c.func.attr) and c.func.attr != '__init__':
+            h = inline_temps(m.func('KrylovBased.' + c.func.attr))
+            hp = [p_ for p_ in params(h) if p_ not in ('self', 'cls')]
+            amap = {p_: unparse(a) for p_, a in zip(hp, c.args)}
+            st = c
+            while not isinstance(st, ast.stmt):
+                st = parent(st)
+            to_H = isinstance(st, ast.Assign) and unparse(st.targets[0]) == 'self.H'
+            units.append((h, {(t, pol) for t, pol, _ in guards_at(f, c)}, amap, to_H))
+    for fu, base_g, amap, to_H in units:
+        def real(txt, amap=amap):
+            for k, v in amap.items():
+                txt = re.sub(r'\b%s\b' % re.escape(k), v, txt)
+            return txt
+        for c in body_nodes(fu):
+            e = pmatch('ShiftNpcLinearOperator($$op, $$sh)', c)
+            if not e or real(unparse(e['$$sh'])) not in ('self.E_shift', 'E_shift'):
+                continue
+            st = c
+            while not isinstance(st, ast.stmt):
+                st = parent(st)
+            g = {(real(t), pol) for t, pol, _ in guards_at(fu, c)} | base_g
+            shifted = any(t.endswith('E_shift is None') and not pol for t, pol in g)
+            is_orth = {pol for t, pol in g if t.startswith('isinstance(') and
+                       'OrthogonalNpcLinearOperator' in t}
+            op = real(unparse(e['$$op']))
+            if op.endswith('.orig_operator') and shifted and is_orth == {True}:
+                # the shifted inner operator must end up INSIDE an orthogonal projection
+                tgt = unparse(st.targets[0]) if isinstance(st, ast.Assign) else ''
+                wrapped = any(isinstance(x, ast.Call) and
+                              call_name(x) == 'OrthogonalNpcLinearOperator'
+                              and c in ast.walk(x) for x in ast.walk(st))
+                named = isinstance(st, ast.Assign) and isinstance(
+                    st.targets[0], ast.Name) and any(
+                    isinstance(x, ast.Call) and call_name(x) == 'OrthogonalNpcLinearOperator' and
+                    x.args and unparse(x.args[0]) == st.targets[0].id for x in body_nodes(fu))
+                if tgt.endswith('.orig_operator') or wrapped or named:
+                    inside = True
+            elif op in ('self.H', 'H') and shifted and is_orth == {False} and ((
+                    isinstance(st, ast.Assign) and (unparse(st.targets[0]) == 'self.H' or any(
+                        isinstance(a, ast.Assign) and unparse(a.targets[0]) == 'self.H' and
+                        unparse(a.value) == unparse(st.targets[0]) for a in ast.walk(fu)))) or (
+                        isinstance(st, ast.Return) and to_H)):
+                outside = True
     if not (inside and outside):
         rep.violation('KRYLOV-eshift', m, 'KrylovBased.__init__', 'shift-inside-projection',
                       'the energy shift must be added to H, and INSIDE an orthogonal projection '
